@@ -350,7 +350,7 @@ def check_lex_updates(rep, prog):
         # group the in-loop puts by block
         blocks = {}
         for c in puts:
-            if c.enclosing('ForStmt') is None:
+            if c.enclosing('ForStmt', 'CXXForRangeStmt') is None:
                 continue
             p_ = cfg.pos_of(c)
             if p_:
@@ -396,6 +396,11 @@ def check_lex_updates(rep, prog):
                         e0 = ed.strip_all()
                         if e0.k in ('CXXOperatorCallExpr', 'UnaryOperator') and e0.op == '*':
                             is_cur = True
+                    # the variable of a range-for over out_edges
+                    rl = mk.enclosing('CXXForRangeStmt')
+                    if ev is not None and rl is not None and rl.role('loopvar') is not None and \
+                            any(d_.k == 'VarDecl' and d_.decl_id == ev for d_ in rl.role('loopvar').walk()):
+                        is_cur = True
                     if flag != 1:
                         probs.append('the predecessor flag stored is not true')
                     if not is_cur:
@@ -413,7 +418,7 @@ def check_lex_updates(rep, prog):
                 rep.ok('R12c', group[0], fn, what, 'put(lex, w, c); put(dist, w, c.distance); put(pred, w, (true, e))')
         # source initialisation
         whats = 'the source starts with the zero label and no predecessor'
-        init = [c for c in puts if c.enclosing('ForStmt') is None and c.enclosing('WhileStmt') is None and ex.var_of(c.args()[1]) == src]
+        init = [c for c in puts if c.enclosing('ForStmt', 'CXXForRangeStmt') is None and c.enclosing('WhileStmt') is None and ex.var_of(c.args()[1]) == src]
         probs = []
         pm = [c for c in init if ex.var_of(c.args()[0]) == predp]
         lm = [c for c in init if ex.var_of(c.args()[0]) == lexmap]
@@ -815,7 +820,7 @@ def check_sorted_inputs(rep, prog, files=('lex_dijkstra', 'sptrees', 'cycles')):
 
 def run(rep, tier):
     from . import search
-    rep.rule('R12h', 'algorithms that need sorted input get sorted ranges', floor=2)
+    rep.rule('R12h', 'algorithms that need sorted input get sorted ranges', floor=0)
     rep.rule('R14d', 'the root node of a tree has distance zero', floor=1)
     rep.rule('R12a', 'lexicographic comparator consistency', floor=1)
     rep.rule('R12b', 'first-in-path labels for every visited node including the root', floor=1)
